@@ -21,13 +21,44 @@ def _cls():
     return DenseScaledMatrix
 
 
+FORM_DTYPE = {"i8": "int64", "i4": "int32", "f4": "float32", "f8": "float64"}
+
+
 def variants(seed, t):
+    """(location, scale) argument variants.  A list stands for a float64 array; ("form", value) gives the argument
+    FORM explicitly: python int / python float scalars ("pyint", "pyfloat") or arrays of dtype int64 / int32 /
+    float32 / float64 ("i8", "i4", "f4", "f8").  The documented argument types are Real or numpy.ndarray (lists are
+    rejected by the library), and every form has to behave like the float64 reference through the whole history.
+    Values of the integer / float32 forms are exactly representable in those types."""
     a, z, b, L = R.alphabet(seed)
     return {
         "V0": (0.0, 1.0),                                   # Real, Real (defaults)
         "V1": ([a, L][:t], [2.0, 0.5][:t]),                 # arrays
         "V2": (3.0, [4.0, 1.0][:t]),                        # Real, array
+        "V3": (("pyint", 0), ("pyint", 1)),                 # the defaults written as python ints
+        "V4": (("pyint", 3), ("pyint", 2)),
+        "V5": (("i8", [3, -2][:t]), ("i8", [2, 4][:t])),
+        "V6": (("i4", [0, 5][:t]), ("i4", [1, 3][:t])),
+        "V7": (("f4", [0.5, -2.0][:t]), ("f4", [2.0, 0.25][:t])),
+        "V8": (("pyfloat", 0.5), ("f8", [2.0, 8.0][:t])),
     }
+
+
+VIDS = ("V0", "V1", "V2", "V3", "V4", "V5", "V6", "V7", "V8")
+
+
+def build_arg(spec, t):
+    """-> (argument to pass to the constructor, list of t floats the model uses)"""
+    if isinstance(spec, tuple):
+        form, v = spec
+        if form == "pyint":
+            return int(v), [float(v)] * t
+        if form == "pyfloat":
+            return float(v), [float(v)] * t
+        return numpy.array(v, dtype=FORM_DTYPE[form]), [float(x) for x in v]
+    if isinstance(spec, list):
+        return numpy.array([float(x) for x in spec], dtype="float64"), [float(x) for x in spec]
+    return float(spec), [float(spec)] * t
 
 
 def to_array(x):
@@ -58,13 +89,12 @@ class Model:
 
 
 def make(mat, loc, scale, seed_unused=None):
-    """mat nested list (floats/None); loc/scale Real or list.  Returns (real object, model)."""
+    """mat nested list (floats/None); loc/scale as in variants().  Returns (real object, model)."""
     arr = to_array(mat)
     t = arr.shape[-1]
-    locl = [float(loc)] * t if not isinstance(loc, list) else [float(v) for v in loc]
-    scl = [float(scale)] * t if not isinstance(scale, list) else [float(v) for v in scale]
-    obj = _cls()(arr.copy(), location=(numpy.array(locl) if isinstance(loc, list) else float(loc)),
-                 scale=(numpy.array(scl) if isinstance(scale, list) else float(scale)))
+    larg, locl = build_arg(loc, t)
+    sarg, scl = build_arg(scale, t)
+    obj = _cls()(arr.copy(), location=larg, scale=sarg)
     flat = arr.reshape(-1, t)
     cols = [[None if math.isnan(v) else Fraction(scl[j]) * Fraction(float(v)) + Fraction(locl[j]) for v in flat[:, j].tolist()]
             for j in range(t)]
@@ -333,6 +363,8 @@ def bfs(ctx, mat, vid, seed, depth):
 
 
 # ----------------------------------------------------------------------------
+VGROUPS = (("V0", "V1", "V2"), ("V3", "V4", "V5"), ("V6", "V7", "V8"))
+
 CURATED = [
     ["a", "L"],                                              # 1-D
     ["N", "z"],
@@ -352,13 +384,21 @@ def shards(tier, seed):
     shapes = [(1, 1), (2, 1), (3, 1), (1, 2), (2, 2)] + ([(3, 2), (4, 1)] if T else [])
     for (n, t) in shapes:
         cells = n * t
-        if cells <= 4:
-            out.append(("S1", n, t, ()))
+        if cells <= 3:
+            out.append(("S1", n, t, (), VIDS))
+        elif cells == 4:
+            for g in VGROUPS:
+                out.append(("S1", n, t, (), g))
         else:
             for p in itertools.product(R.SYMS, repeat=2):
-                out.append(("S1", n, t, p))
+                for g in VGROUPS:
+                    out.append(("S1", n, t, p, g))
     for (n, t) in [(1, 1), (2, 1), (3, 1), (1, 2), (2, 2)] + ([(4, 1)] if T else []):
-        out.append(("S1T", n, t, ()))
+        if n * t <= 3:
+            out.append(("S1T", n, t, (), VIDS))
+        else:
+            for g in VGROUPS:
+                out.append(("S1T", n, t, (), g))
     for i in range(len(CURATED)):
         out.append(("S2", i, 4 if T else 3))
     return out
@@ -367,18 +407,19 @@ def shards(tier, seed):
 def run_shard(spec, ctx):
     seed = ctx.seed
     if spec[0] in ("S1", "S1T"):
-        _, n, t, prefix = spec
+        _, n, t, prefix, vids = spec
         ctx.flag("S:alphabet:" + ("main" if spec[0] == "S1" else "tiny"))
         for tail in itertools.product(R.SYMS if spec[0] == "S1" else R.TSYMS, repeat=n * t - len(prefix)):
             cells = tuple(prefix) + tail
             mat = R.concrete([list(cells[i * t:(i + 1) * t]) for i in range(n)], seed)
-            for vid in ("V0", "V1", "V2"):
+            for vid in vids:
                 bfs(ctx, mat, vid, seed, 1)
                 ctx.count("S1:cases")
+                ctx.flag(f"S:variant:{vid}")
     else:
         _, i, depth = spec
         mat = R.concrete(CURATED[i], seed)
-        for vid in ("V0", "V1", "V2"):
+        for vid in VIDS:
             bfs(ctx, mat, vid, seed, depth)
             ctx.count("S2:roots")
 
@@ -388,6 +429,8 @@ def finalize(ctx, tier, seed):
     for op in ("rescale", "unscale", "transform", "untransform", "copy"):
         assert c.get(f"S:op:{op}", 0) > 0, op
     assert "S:alphabet:tiny" in f and "S:alphabet:main" in f
+    for vid in VIDS:                     # every constructor argument form of location / scale
+        assert f"S:variant:{vid}" in f, vid
     for fl in ("S:changes:rescale", "S:changes:unscale", "S:constant-column", "S:nan-column", "S:ndim=1", "S:ndim=2", "S:ndim=3"):
         assert fl in f, fl
     assert c.get("S1:cases", 0) > 100 and c.get("S2:roots", 0) > 0
